@@ -654,7 +654,27 @@ func (c *compiler) compile(tok *token) []instruction {
 		for i := len(tok.Tokens[switchCases].Tokens) - 1; i >= 0; i-- {
 			cs := tok.Tokens[switchCases].Tokens[i]
 			const caseStmt, caseBlock = 0, 1
-			csStmt := c.optimize(c.compile(cs.Tokens[caseStmt]))
+			var csStmt []instruction
+			if cs.Tokens[caseStmt].Symbol == "," {
+				// case a, b, c: the case matches if any value matches
+				for j, val := range cs.Tokens[caseStmt].Tokens {
+					cmp := c.optimize(c.compile(val))
+					if isValue {
+						cmp = append(cmp, instruction{Code: codeLocalGet, A: reg(v)})
+						cmp = append(cmp, instruction{Code: codeEq})
+					}
+					if j > 0 {
+						csStmt = append(csStmt, instruction{Code: codeOr, A: reg(len(cmp))})
+					}
+					csStmt = append(csStmt, cmp...)
+				}
+			} else {
+				csStmt = c.optimize(c.compile(cs.Tokens[caseStmt]))
+				if isValue {
+					csStmt = append(csStmt, instruction{Code: codeLocalGet, A: reg(v)})
+					csStmt = append(csStmt, instruction{Code: codeEq})
+				}
+			}
 			c.Begin()
 			csBlock := c.optimize(c.compileAll(cs.Tokens[caseBlock].Tokens))
 			for n, ins := range csBlock {
@@ -666,10 +686,6 @@ func (c *compiler) compile(tok *token) []instruction {
 			c.End()
 			var chunk []instruction
 			chunk = append(chunk, csStmt...)
-			if isValue {
-				chunk = append(chunk, instruction{Code: codeLocalGet, A: reg(v)})
-				chunk = append(chunk, instruction{Code: codeEq})
-			}
 			chunk = append(chunk, instruction{Code: codeJumpFalse, A: reg(len(csBlock) + 1)})
 			chunk = append(chunk, csBlock...)
 			chunk = append(chunk, instruction{Code: codeJump, A: reg(len(out) + len(defBlock))})
